@@ -38,6 +38,11 @@ func (z *bufferPool) swap(oldBuf []byte, size int) []byte {
 	}
 
 	newBuf := z.pool[swap].buf
+	if len(oldBuf) == 0 {
+		// the old buffer holds no shifted bytes that must be kept alive, leave it free for reuse
+		z.pool[swap] = block{oldBuf, 0, false}
+		return newBuf[:0]
+	}
 
 	// put current buffer into pool
 	z.pool[swap] = block{oldBuf, 0, true}
